@@ -173,7 +173,7 @@ def C03_create_stmt : Prop :=
     PlainPos q → getAt (.dict cls kvs) q = some cur → s.first → (∀ x ∈ steps, x.later) → GOk (s :: steps) →
     createIn cur (s :: steps) v = some cur' → setAt (.dict cls kvs) q cur' = some t' →
     ∃ n, ∀ fuel ≥ n,
-      setItem fuel (.dict cls kvs) (slash ++ renderPos q ++ (s :: steps).flatMap renderStep) v = (t', .ok ())
+      setItem fuel (.dict cls kvs) (slash ++ renderPos q ++ (s :: steps).flatMap renderCStep) v = (t', .ok ())
 
 /-- **C03 (honoured grammar, first step below a dict), proved.**  The full statement for every
 creation path whose first step is a name step or a named element-creating step (`cur` is then a
@@ -186,7 +186,7 @@ theorem C03_create_partial (cls : Cls) (kvs : List (Str × Val)) (q : Pos) (kcls
     (hfirst : s.first) (hidx : ∀ e, s ≠ .idx e) (hsteps : ∀ x ∈ steps, x.later) (hg : GOk (s :: steps))
     (hcreate : createIn (.dict kcls nkvs) (s :: steps) v = some cur')
     (hset : setAt (.dict cls kvs) q cur' = some t') (hf : fuel ≥ 4 * (q.length + 1)) :
-    setItem fuel (.dict cls kvs) (slash ++ renderPos q ++ (s :: steps).flatMap renderStep) v = (t', .ok ()) := by
+    setItem fuel (.dict cls kvs) (slash ++ renderPos q ++ (s :: steps).flatMap renderCStep) v = (t', .ok ()) := by
   have hs : PlainKey s.nameOf := by
     cases s with
     | name n => exact hfirst
